@@ -240,6 +240,11 @@ func buildXMSS(wSel, lenKind, k, delta, descKind, d0, d1, d2, contentKind int, c
 		h := (n - effBase) / 32
 		c.PK[0], c.PK[1], c.PK[2] = byte(d0%3), byte(h/2)&0x0f, 0
 		cls += "/descriptor-consistent"
+		if d1%4 == 0 {
+			// height and signature type consistent, hash id ANY of the 16 nibble values (3..15 are unsupported)
+			c.PK[0] = byte(d0 % 16)
+			cls += "-any-hash-id"
+		}
 	case 1:
 		c.PK[0], c.PK[1], c.PK[2] = byte(d0), byte(d1), byte(d2)
 		cls += "/descriptor-random"
